@@ -70,3 +70,13 @@ def fallback(x):
         else:
             r = 3
     return r
+
+
+def fallback2(x):
+    if x > 0:
+        r = 1
+    else:
+        if x < -5:
+            r = 2
+        r = 3
+    return r
